@@ -287,6 +287,9 @@ package dns
 //@ func (*SVCBMandatory).unpack
 //@   loop 1 invariant 0 <= i && i % 2 == 0 && len(b) % 2 == 0
 //@ func (*SVCBAlpn).unpack
+// RFC 9460 7.1.1: an alpn-id has at least one octet - the form pack insists on; what unpack accepts can be packed again
+//@   ensures nonempty: ret0 == nil ==> (forall k in 0..len(s.Alpn) :: len(s.Alpn[k]) > 0) [C01 C02]
+//@   loop 1 invariant nonempty: forall k in 0..len(alpn) :: len(alpn[k]) > 0 [C01 C02]
 //@   loop 1 invariant 0 <= i
 //@ func (*SVCBIPv4Hint).unpack
 //@   loop 1 invariant 0 <= i && i % 4 == 0 && len(b) % 4 == 0
